@@ -110,6 +110,12 @@ def build_pool(seed, d):
     # rule text written by hand: unquoted hexadecimal scalars (YAML reads them as integers)
     add("unquoted hex operand", None, la, {"yaml": "hex"}, raw="pattern:\n  - movl: [0x10]\n", mode=("list", "all", True))
     add("unquoted hex deref", None, la, {"yaml": "hex"}, raw="pattern:\n  - lea:\n    - $deref:\n        main_reg: rax\n        constant_offset: 0x8\n", mode=("list", "all", True))
+    # a `config:` section that is present but empty (every option commented out: YAML null) - whatever JASM does with it, it must
+    # do the same after a rule that set the option; one rule per process-wide setting
+    for nm_, raw_, inp_, bin_ in (("flags", "config:\n  # operands-full-match: true\npattern:\n  - push: [rb]\n  - mov\n", la, False),
+                                  ("range", "config:\npattern:\n  - call: [valid_addr]\n", la, False), ("range b", "config:\npattern:\n  - jmp: [valid_addr]\n", lb, False),
+                                  ("sections", "config:\n  # sections: [.text]\npattern:\n  - push\n  - mov\n", bn, True), ("style", "config:\n  # style: intel\npattern:\n  - push\n", bn, True)):
+        add(f"empty config section ({nm_})", None, inp_, {"yaml": "null-config"}, raw=raw_, binary=bin_, mode=("list", "all", True))
     add("captures 1", jasm_io.make_doc([{"push": ["&x"]}, {"pop": ["&x"]}]), la, {"captures": 1}, mode=("list", "all", False))
     add("captures 1b", jasm_io.make_doc([{"push": ["&r"]}, {"push": ["&r"]}]), lb, {"captures": 1}, mode=("list", "all", False))
     add("captures 3", jasm_io.make_doc([{"push": ["&a"]}, {"pop": ["&a"]}, {"add": ["&b", "&c"]}, "ret"]), la, {"captures": 3}, mode=("list", "all", False))
@@ -449,6 +455,10 @@ def step_content(slot, v):
         cfg = {k_: v_ for k_, v_ in (("style", style), ("sections", secs)) if v_}
         return jasm_io.dump_yaml(jasm_io.make_doc(["push"], config=cfg or None))
     if t == 10:
+        if c % 4 == 3:
+            # hand-written: the config section is there but empty (YAML null)
+            return ["config:\n  # operands-full-match: true\npattern:\n  - pus: [rb]\n  - mov\n", "config:\npattern:\n  - call: [valid_addr]\n",
+                    "config:\n  # sections: [.text]\npattern:\n  - push\n", "config:\n  # style: intel\npattern:\n  - ret\n"][b % 4]
         # hand-written rule text with unquoted hexadecimal scalars (YAML reads them as integers)
         return ["pattern:\n  - movl: [0x10]\n", "pattern:\n  - lea:\n    - $deref:\n        main_reg: rax\n        constant_offset: 0x8\n", "pattern:\n  - call: [0x401020]\n"][b % 3]
     if t == 11:
